@@ -91,9 +91,16 @@ static int symbolic_first_empty(const tmat_t *T, const int_t *perm_r, const int_
     return 0;
 }
 
+static int has_isolated_vertex(const tmat_t *T) {
+    int n = T->n, deg[NMAX] = { 0 };
+    for (int j = 0; j < n; j++) for (int k = T->colptr[j]; k < T->colptr[j + 1]; k++) if (T->rowind[k] != j) { deg[j]++; deg[T->rowind[k]]++; }
+    for (int j = 0; j < n; j++) if (!deg[j]) return 1;
+    return 0;
+}
 static void judge(const tmat_t *T, const mref_t *m, int vkind, const fcfg_t *c, const fres_t *r, const char *cs)
 {
     int n = T->n; char msg[400]; msg[0] = 0;
+    const char *c16cls = has_isolated_vertex(T) ? ":isolated-vertices" : "";
     n_runs++;
     unsigned long long h = 1469598103934665603ULL;
     h = hmix(h, r->info); for (int i = 0; i < n; i++) { h = hmix(h, r->perm_r[i]); h = hmix(h, r->perm_c[i] * 31); } h = hmix(h, r->nsuper); h = hmix(h, r->Lnnz * 7 + r->Unnz);
@@ -112,13 +119,13 @@ static void judge(const tmat_t *T, const mref_t *m, int vkind, const fcfg_t *c, 
         if (r->info != 0) { n_skipped++; if (!strcmp(PROP, "C02")) return; }
         if (r->info == 0 && r->wf) {       /* malformed factors are C09's finding; nothing to multiply here */
             n_skipped++;
-            if (!strcmp(PROP, "C16")) { if (r->slot_overflow) VIOL(c->dyn ? "C16:slot:dynamic-store" : "C16:slot", "%s", r->slotmsg); char sig[64]; snprintf(sig, sizeof sig, "C16:wellformed:code%d%s", r->wf, c->dyn ? ":dynamic-store" : ""); VIOL(sig, "%s", r->wfmsg); }
+            if (!strcmp(PROP, "C16")) { char sg2[96]; snprintf(sg2, sizeof sg2, "C16:slot%s%s", c->dyn ? ":dynamic-store" : "", c16cls); if (r->slot_overflow) VIOL(sg2, "%s", r->slotmsg); char sig[96]; snprintf(sig, sizeof sig, "C16:wellformed:code%d%s%s", r->wf, c->dyn ? ":dynamic-store" : "", c16cls); VIOL(sig, "%s", r->wfmsg); }
             return; }
         if (r->info == 0) {
             n_judged++;
             ldc M[NMAX][NMAX]; ld ratio;
             permuted_A(r->A, n, r->perm_r, r->perm_c, M);
-            char s1[64], s2[64], s3[64]; const char *sfx = (!strcmp(PROP, "C16") && c->dyn) ? ":dynamic-store" : "";
+            char s1[96], s2[96], s3[96]; char sfxb[64]; snprintf(sfxb, sizeof sfxb, "%s%s", (!strcmp(PROP, "C16") && c->dyn) ? ":dynamic-store" : "", !strcmp(PROP, "C16") ? c16cls : ""); const char *sfx = sfxb;
             snprintf(s1, sizeof s1, "%s:residual%s", PROP, sfx); snprintf(s2, sizeof s2, "%s:multiplier%s", PROP, sfx); snprintf(s3, sizeof s3, "%s:policy%s%s", PROP, c->forced ? ":usepr" : "", sfx);
             if (check_lu_residual(M, r->Ld, r->Ud, n, &ratio, msg, sizeof msg)) VIOL(s1, "%s", msg);
             if (check_multipliers(r->Ld, n, c->u, msg, sizeof msg)) VIOL(s2, "%s", msg);
@@ -136,7 +143,7 @@ static void judge(const tmat_t *T, const mref_t *m, int vkind, const fcfg_t *c, 
                 for (int k = j; k < j + wj && k < n; k++) used += r->nsupr_of[k];
                 if (used > (long)wj * r->colcnt_h[j]) { VIOL("C16:fill", "columns %d..%d of L store %ld values; the Cholesky prediction reserved %d x %d", j, j + wj - 1, used, wj, (int)r->colcnt_h[j]); break; }
             }
-            if (r->slot_overflow) VIOL(c->dyn ? "C16:slot:dynamic-store" : "C16:slot", "%s", r->slotmsg);
+            { char sg2[96]; snprintf(sg2, sizeof sg2, "C16:slot%s%s", c->dyn ? ":dynamic-store" : "", c16cls); if (r->slot_overflow) VIOL(sg2, "%s", r->slotmsg); }
         }
         return;
     }
@@ -315,19 +322,26 @@ static void cases_for_matrix(const tmat_t *T, int vkind, int salt) {
     }
 }
 
+static int SYMPAT;
+static unsigned long long sym_to_bits(int n, unsigned long long idx) {
+    unsigned long long bits = 0; int k = 0;
+    for (int i = 0; i < n; i++) { bits |= 1ULL << (i * n + i); for (int j = 0; j < i; j++, k++) if ((idx >> k) & 1) { bits |= 1ULL << (i * n + j); bits |= 1ULL << (j * n + i); } }
+    return bits;
+}
 static void case_fn(long idx, void *ctx) {
     (void)ctx; static tmat_t T;
     G->cfg_no = 0;
+    if (SYMPAT) idx = (long)sym_to_bits(SW.n, (unsigned long long)idx);
     build_pattern_matrix(&T, SW.n, (unsigned long long)idx, SW.vkind, SW.salt);
     cases_for_matrix(&T, SW.vkind, SW.salt);
 }
 static void death_fn(long idx, int kind, int code, const char *note, void *ctx) {
     (void)ctx; n_deaths++; n_viol++;
-    static tmat_t T; build_pattern_matrix(&T, SW.n, (unsigned long long)idx, SW.vkind, SW.salt);
+    static tmat_t T; build_pattern_matrix(&T, SW.n, SYMPAT ? sym_to_bits(SW.n, (unsigned long long)idx) : (unsigned long long)idx, SW.vkind, SW.salt);
     static mref_t m; mref_compute(&T, &m);
     char sig[200], cd[128]; vf_crash_desc(kind, code, cd, sizeof cd);
     const char *site = strchr(cd, '@'); /* the same wild read either faults or is caught by the sanitizer: the signature keeps only the site */
-    snprintf(sig, sizeof sig, "%s:crash:%s:%s%s", PROP, site ? site : cd, m.struct_nonsing ? "nonsingular" : sing_class(&T), (note && strstr(note, "dyn=1") && strstr(note, "sym=1")) ? ":symmetric+dynamic-store" : "");
+    snprintf(sig, sizeof sig, "%s:crash:%s:%s%s%s", PROP, site ? site : cd, m.struct_nonsing ? "nonsingular" : sing_class(&T), (note && strstr(note, "dyn=1") && strstr(note, "sym=1")) ? ":symmetric+dynamic-store" : "", (!strcmp(PROP, "C16") && has_isolated_vertex(&T)) ? ":isolated-vertices" : "");
     out_violation(PROP, sig, note, "process died (%s) while running this case", cd);
 }
 
@@ -395,8 +409,9 @@ int main(int argc, char **argv) {
     int timeout = arg_int(argc, argv, "--timeout", 20);
     double deadline = atof(arg_str(argc, argv, "--deadline", "1e9")); double t0 = now_s();
     long total = 0, done = 0; int complete = 1;
+    if (!strcmp(family, "sympat")) { SYMPAT = 1; family = "pat"; }
     if (!strcmp(family, "pat")) {
-        unsigned long long npat = 1ULL << (SW.n * SW.n);
+        unsigned long long npat = SYMPAT ? 1ULL << (SW.n * (SW.n - 1) / 2) : 1ULL << (SW.n * SW.n);
         unsigned long long per = (npat + SW.nslice - 1) / SW.nslice, lo = per * SW.islice, hi = lo + per; if (hi > npat) hi = npat;
         total = (long)(hi - lo);
         /* chunks, so that a deadline can stop between chunks */
